@@ -8,6 +8,11 @@ package main
 // (nothing is dropped, duplicated or modified), so those packets are declared lost although they
 // arrive. Whatever the loss detection does, each application datagram must be handed to the
 // receiving application at most once and unmodified; the stream must arrive intact.
+// Download mode (Down, every third case; seed C01-f): the SERVER writes the stream, the client reads it with small fixed
+// flow-control windows (so it sends MAX_STREAM_DATA / MAX_DATA all the time and nothing else) and
+// sends datagrams continuously until the download is complete, while every k-th client->server
+// datagram is DROPPED: packets carrying window updates are lost and the updates are retransmitted
+// from the retransmission queue in packets that also carry an application datagram.
 // Monitors: simdgram/dup, simdgram/modified, simdgram/stream, simdgram/finishes, simdgram/hang.
 
 import (
@@ -37,9 +42,15 @@ type simDgramCase struct {
 	RTTms      int
 	Client     string
 	Seed       uint64
+	Down       bool // download mode
+	Window     int  // download mode: the client's stream and connection receive window
 }
 
 func (c simDgramCase) String() string {
+	if c.Down {
+		return fmt.Sprintf("download client=%s rtt=%dms stream=%d window=%d dgrams<=%dx%dB gap=%dus drop every %d-th c>s datagram from #%d seed=%d",
+			c.Client, c.RTTms, c.StreamSize, c.Window, c.Dgrams, c.DgSize, c.GapUs, c.Every, c.FromIdx, c.Seed)
+	}
 	return fmt.Sprintf("client=%s rtt=%dms stream=%d dgrams=%dx%dB gap=%dus delay every %d-th c>s datagram from #%d by %dms seed=%d",
 		c.Client, c.RTTms, c.StreamSize, c.Dgrams, c.DgSize, c.GapUs, c.Every, c.FromIdx, c.DelayMs, c.Seed)
 }
@@ -55,13 +66,22 @@ func runOneSimDgram(c simDgramCase) (fails []monFail, info string) {
 	err := inBubble(func() {
 		var faults []fault
 		for i := c.FromIdx; i < c.FromIdx+4000; i += c.Every {
-			faults = append(faults, fault{Dir: 0, Idx: i, Kind: fDelay, Arg: c.DelayMs})
+			if c.Down {
+				faults = append(faults, fault{Dir: 0, Idx: i, Kind: fDrop})
+			} else {
+				faults = append(faults, fault{Dir: 0, Idx: i, Kind: fDelay, Arg: c.DelayMs})
+			}
 		}
 		o := simOpts{
 			RTT:        time.Duration(c.RTTms) * time.Millisecond,
 			Faults:     faults,
 			ServerConf: &quic.Config{EnableDatagrams: true, MaxIdleTimeout: 20 * time.Second},
 			ClientConf: &quic.Config{EnableDatagrams: true, MaxIdleTimeout: 20 * time.Second},
+		}
+		if c.Down {
+			w := uint64(c.Window)
+			o.ClientConf.InitialStreamReceiveWindow, o.ClientConf.MaxStreamReceiveWindow = w, w
+			o.ClientConf.InitialConnectionReceiveWindow, o.ClientConf.MaxConnectionReceiveWindow = w, w
 		}
 		switch c.Client {
 		case "plain":
@@ -111,6 +131,16 @@ func runOneSimDgram(c simDgramCase) (fails []monFail, info string) {
 					mu.Unlock()
 				}
 			}()
+			if c.Down {
+				s, err := conn.OpenUniStreamSync(ctx)
+				if err != nil {
+					fail("simdgram/open", err.Error())
+					return
+				}
+				s.Write(streamBytes(1, c.StreamSize))
+				s.Close()
+				return
+			}
 			s, err := conn.AcceptUniStream(ctx)
 			if err != nil {
 				srvDone <- sres{nil, err}
@@ -126,19 +156,41 @@ func runOneSimDgram(c simDgramCase) (fails []monFail, info string) {
 			return
 		}
 		<-srvReady
-		s, err := conn.OpenUniStreamSync(ctx)
-		if err != nil {
-			fail("simdgram/open", err.Error())
-			return
-		}
 		want := streamBytes(1, c.StreamSize)
-		go func() {
-			s.Write(want)
-			s.Close()
-		}()
+		downDone := make(chan struct{})
+		if c.Down {
+			go func() {
+				defer close(downDone)
+				s, err := conn.AcceptUniStream(ctx)
+				if err != nil {
+					srvDone <- sres{nil, err}
+					return
+				}
+				data, err := io.ReadAll(s)
+				srvDone <- sres{data, err}
+			}()
+		} else {
+			s, err := conn.OpenUniStreamSync(ctx)
+			if err != nil {
+				fail("simdgram/open", err.Error())
+				return
+			}
+			go func() {
+				s.Write(want)
+				s.Close()
+			}()
+		}
 		sent := map[string]bool{}
 		rr := u.NewRng(c.Seed)
 		for i := 0; i < c.Dgrams; i++ {
+			if c.Down {
+				select {
+				case <-downDone:
+					i = c.Dgrams
+					continue
+				default:
+				}
+			}
 			d := append([]byte(fmt.Sprintf("dg-%05d-", i)), rr.Bytes(c.DgSize)...)
 			if err := conn.SendDatagram(d); err == nil {
 				sent[string(d)] = true
@@ -153,7 +205,7 @@ func runOneSimDgram(c simDgramCase) (fails []monFail, info string) {
 				fail("simdgram/stream", fmt.Sprintf("stream content differs (%d bytes read, %d written)", len(res.data), len(want)))
 			}
 		case <-ctx.Done():
-			fail("simdgram/finishes", "transfer did not finish within 120 s of virtual time although nothing was dropped")
+			fail("simdgram/finishes", "transfer did not finish within 120 s of virtual time (upload: nothing was dropped; download: only every k-th client packet)")
 		}
 		time.Sleep(time.Duration(c.DelayMs+4*c.RTTms+500) * time.Millisecond) // let held-back packets and retransmissions arrive
 		mu.Lock()
@@ -207,10 +259,24 @@ func genSimDgramCase(r *u.Rng) simDgramCase {
 	return c
 }
 
+func simDgramDownload(c simDgramCase, r *u.Rng) simDgramCase {
+	c.Down = true
+	c.Window = int(r.Pick(4096, 8192, 16384, 32768))
+	c.StreamSize = r.Range(40000, 160000)
+	c.Dgrams = 1500
+	c.DgSize = r.Range(10, 200)
+	c.GapUs = int(r.Pick(300, 700, 1500))
+	c.Every = r.Range(3, 7)
+	return c
+}
+
 func runSimDgram(w *bufio.Writer, seed uint64, n int, _ []string) {
 	r := u.NewRng(seed ^ 0xd9a3)
 	for i := 0; i < n; i++ {
 		c := genSimDgramCase(r)
+		if i%3 == 1 {
+			c = simDgramDownload(c, r.Fork())
+		}
 		done := make(chan struct{})
 		go func(c simDgramCase) {
 			select {
